@@ -163,6 +163,19 @@ func (a *UDPAssociation) Context() context.Context {
 	return a.ctx
 }
 
+// controlClientIP returns the IP address of the peer of the TCP control connection
+// (the client that owns this association), or nil when the control connection does
+// not expose a TCP peer address (e.g. SOCKS5 tunneled over WebSocket).
+func (a *UDPAssociation) controlClientIP() net.IP {
+	if a.TCPConn == nil {
+		return nil
+	}
+	if tcpAddr, ok := a.TCPConn.RemoteAddr().(*net.TCPAddr); ok && tcpAddr != nil {
+		return tcpAddr.IP
+	}
+	return nil
+}
+
 // ReadLoop reads datagrams from the SOCKS5 client and relays them through the mesh.
 // This should be run in a goroutine.
 func (a *UDPAssociation) ReadLoop() {
@@ -183,12 +196,12 @@ func (a *UDPAssociation) ReadLoop() {
 			continue
 		}
 
-		// Update actual client address on first datagram
-		a.mu.Lock()
-		if a.ActualClientAddr == nil {
-			a.ActualClientAddr = clientAddr
+		// Only the host that owns the TCP control connection may use the relay.
+		// Without this check any host that can reach the relay port could send
+		// datagrams into the mesh and, by sending first, receive the replies.
+		if owner := a.controlClientIP(); owner != nil && !clientAddr.IP.Equal(owner) {
+			continue
 		}
-		a.mu.Unlock()
 
 		// Verify client address if expected address was specified
 		a.mu.RLock()
@@ -201,6 +214,15 @@ func (a *UDPAssociation) ReadLoop() {
 				continue
 			}
 		}
+
+		// Record the client address on the first accepted datagram (replies go there).
+		// This must happen after the checks above: a rejected sender must never
+		// become the destination of the replies.
+		a.mu.Lock()
+		if a.ActualClientAddr == nil {
+			a.ActualClientAddr = clientAddr
+		}
+		a.mu.Unlock()
 
 		// Parse SOCKS5 UDP header
 		header, payload, err := ParseUDPHeader(buf[:n])
